@@ -121,6 +121,8 @@ type (
 	pendingMessage struct {
 		message *common.MessagePublication
 		height  uint64
+		// readyAt is the first head at which the message had enough confirmations (0: not yet).
+		readyAt uint64
 	}
 )
 
@@ -436,7 +438,12 @@ func (w *Watcher) Run(ctx context.Context) error {
 					// whole window (see the transient error case below). This must not be decided
 					// before the receipt was looked up: the head can advance by more than
 					// maxWaitConfirmations between two polls (e.g. when finality catches up).
-					timedOut := pLock.height+expectedConfirmations+w.maxWaitConfirmations <= blockNumberU
+					// The window is counted from the first head at which the receipt could be
+					// looked up, which is later than height+expectedConfirmations after such a jump.
+					if pLock.readyAt == 0 && pLock.height+expectedConfirmations <= blockNumberU {
+						pLock.readyAt = blockNumberU
+					}
+					timedOut := pLock.readyAt != 0 && pLock.readyAt+w.maxWaitConfirmations <= blockNumberU
 
 					// Transaction is now ready
 					if pLock.height+expectedConfirmations <= blockNumberU {
